@@ -174,7 +174,9 @@ impl CodePage {
         if *self == CodePage::UsAscii {
             ascii_decode(bytes)
         } else {
-            self.encoding().decode(bytes).0.into_owned()
+            // (Don't let a byte order mark at the start of the data override
+            // the code page.)
+            self.encoding().decode_without_bom_handling(bytes).0.into_owned()
         }
     }
 
